@@ -232,11 +232,11 @@ prop("C03", harness="h_sched",
      assumptions=["the mock implements the documented semantics of tbb::parallel_for / functional parallel_reduce / concurrent_vector::push_back and is not more liberal than oneTBB",
                   "races inside real TBB internals are out of scope (TSan on real libtbb is unusable here: uninstrumented runtime)",
                   "real-libtbb executions of the same entry points with generated worker limits are part of C07 and C08"])
-MPIRUN = ["mpiexec", "--allow-run-as-root", "--oversubscribe", "--mca", "mpi_yield_when_idle", "0", "-n"]
+MPIRUN = ["mpiexec", "--allow-run-as-root", "--host", "localhost:64", "-n"]
 prop("C04", harness="h_mpi",
-     quick=dict(shards=4, cases=1500, parallel=2, timeout=900, env={"VERIF_MAXN": "12"}, launcher=MPIRUN + ["8"],
-                extra_phases=[dict(shards=2, cases=1200, launcher=MPIRUN + ["3"], seed_offset=100, replay_with=False),
-                              dict(shards=1, cases=600, launcher=MPIRUN + ["1"], seed_offset=200, replay_with=False)]),
+     quick=dict(shards=4, cases=4000, parallel=2, timeout=900, env={"VERIF_MAXN": "12"}, launcher=MPIRUN + ["8"],
+                extra_phases=[dict(shards=2, cases=3000, launcher=MPIRUN + ["3"], seed_offset=100, replay_with=False),
+                              dict(shards=1, cases=1500, launcher=MPIRUN + ["1"], seed_offset=200, replay_with=False)]),
      thorough=dict(shards=8, cases=12000, parallel=2, timeout=6000, env={"VERIF_MAXN": "16"}, launcher=MPIRUN + ["8"],
                    extra_phases=[dict(shards=4, cases=8000, launcher=MPIRUN + ["3"], seed_offset=100, replay_with=False),
                                  dict(shards=4, cases=8000, launcher=MPIRUN + ["5"], seed_offset=150, replay_with=False),
